@@ -257,7 +257,7 @@ PHASES = ["read", "dump", "replace", "end"]
 
 
 def conc_calls(w: World, root, pis, sched):
-    """Forked children, one call each, stopped at read / dump / replace; the parent releases
+    """Forked children, one call each, stopped at mkdir / read / dump / replace; the parent releases
     them according to sched = [(child, phase), ...]; afterwards everybody runs to the end."""
     kids = []
     for pi in pis:
@@ -291,8 +291,18 @@ def conc_calls(w: World, root, pis, sched):
                 def p_replace(*a, **k):
                     sync("replace")
                     return real_replace(*a, **k)
+                real_mkdir = os.mkdir
+                first_mkdir = [True]
+
+                def p_mkdir(*a, **k):
+                    # the first attempt to create (any part of) the cache directory: whatever
+                    # existence check the code makes has been made by now
+                    if first_mkdir[0]:
+                        first_mkdir[0] = False
+                        sync("mkdir")
+                    return real_mkdir(*a, **k)
                 sync("start")
-                builtins.open, pickle.dump, os.replace = p_open, p_dump, p_replace
+                builtins.open, pickle.dump, os.replace, os.mkdir = p_open, p_dump, p_replace, p_mkdir
                 _child_call(w, root, pi, ev_w)
             finally:
                 os._exit(0)
@@ -400,7 +410,63 @@ def hammer(w: World, root, nproc, ncalls, seed, pis, chaos):
     return out
 
 
+def coldrace(w: World, base, nproc, rounds, seed, pis, depth=8):
+    """Real race on a cache directory that does not exist yet: nproc forked workers are released
+    together (a pipe they all block on is closed), each calls perform_cached_doit once on the same
+    fresh nested path; repeated for many rounds.  Oracle: every call returns doit(e), none raises."""
+    bad, ncalls = [], 0
+    rng = random.Random(seed)
+    for rnd in range(rounds):
+        top = tempfile.mkdtemp(prefix="cold%d_" % rnd, dir=base)
+        root = os.path.join(top, *["level-%d" % i for i in range(depth)])
+        gate_r, gate_w = os.pipe()
+        kids = []
+        for j in range(nproc):
+            pi = pis[rng.randrange(len(pis))]
+            r_fd, w_fd = os.pipe()
+            pid = os.fork()
+            if pid == 0:
+                try:
+                    os.close(gate_w)
+                    os.close(r_fd)
+                    os.read(gate_r, 1)          # returns (EOF) when the parent closes the gate
+                    _child_call(w, root, pi, w_fd)
+                finally:
+                    os._exit(0)
+            os.close(w_fd)
+            kids.append((pid, r_fd, pi))
+        os.close(gate_r)
+        time.sleep(0.002)
+        os.close(gate_w)
+        for pid, r_fd, pi in kids:
+            doc = _read_lines(r_fd, 120)
+            os.close(r_fd)
+            os.waitpid(pid, 0)
+            ncalls += 1
+            if not isinstance(doc, dict) or not doc.get("ok"):
+                bad.append({"round": rnd, "e": w.names[pi], "what": ("raised %s" % doc.get("exc")) if isinstance(doc, dict) and doc.get("exc")
+                            else "wrong value / died: %s" % (doc,)})
+        shutil.rmtree(top, ignore_errors=True)
+    return ncalls, bad
+
+
 # --------------------------------------------------------------------------- executing a history
+class Rebuild:
+    """Pickles as 'call <func> with <args>' (like every SymPy object does); loading calls it."""
+
+    def __init__(self, func, args):
+        self.func, self.args = func, args
+
+    def __reduce__(self):
+        return (self.func, self.args)
+
+
+# well-formed streams whose load raises something else than an UnpicklingError/EOFError
+RAISING_KINDS = ["raise_fewer_fields", "raise_more_fields", "raise_symbol_signature", "raise_int_value",
+                 "raise_bad_utf8", "raise_text_int", "raise_extension_code", "raise_missing_module",
+                 "raise_missing_class", "raise_stack_underflow", "raise_unknown_memo", "raise_zero_division",
+                 "raise_key_error", "raise_bare_fewer_fields", "raise_assertion", "raise_lookup"]
+
 PUT_KINDS = ["legacy_own", "legacy_other", "valid_other", "valid_trailing", "junk_int", "junk_3tuple",
              "junk_headless_tuple", "junk_list", "empty", "text", "half", "dir"]
 
@@ -431,6 +497,29 @@ def put_bytes(w: World, op):
     if kind == "half":
         b = pickle.dumps((e, d))
         return b[: len(b) // 2]
+    if kind.startswith("raise_"):
+        import operator
+        s_, m_ = sp.Symbol("s"), sp.Symbol("m")
+        bad = {
+            # entries of "another ampform / sympy version": constructor signature differs
+            "raise_fewer_fields": lambda: pickle.dumps((Rebuild(EnergyDependentWidth, (s_, m_, m_)), d)),      # TypeError
+            "raise_more_fields": lambda: pickle.dumps((Rebuild(BreakupMomentumSquared, (s_, m_, m_, "q", m_)), d)),
+            "raise_bare_fewer_fields": lambda: pickle.dumps(Rebuild(EnergyDependentWidth, (s_,))),
+            "raise_symbol_signature": lambda: pickle.dumps((Rebuild(sp.Symbol, ()), d)),                       # TypeError
+            "raise_int_value": lambda: pickle.dumps((e, Rebuild(int, ("x",)))),                                # ValueError
+            "raise_bad_utf8": lambda: b"\x80\x04\x8c\x02\xff\xfe.",                                        # UnicodeDecodeError
+            "raise_text_int": lambda: b"Iabc\n.",                                                             # ValueError
+            "raise_extension_code": lambda: b"\x80\x02\x82\x05.",                                            # ValueError
+            "raise_missing_module": lambda: b"campform_future.dynamics\nSomeLineshape\n.",                    # ModuleNotFoundError
+            "raise_missing_class": lambda: b"campform.dynamics\nSomeFutureLineshape\n.",                      # AttributeError
+            "raise_stack_underflow": lambda: b"\x80\x04\x85.",                                               # UnpicklingError
+            "raise_unknown_memo": lambda: b"\x80\x04h\x05.",                                                 # UnpicklingError/KeyError
+            "raise_zero_division": lambda: pickle.dumps((e, Rebuild(divmod, (1, 0)))),                         # ZeroDivisionError
+            "raise_key_error": lambda: pickle.dumps(Rebuild(operator.getitem, ({}, "k"))),                     # KeyError
+            "raise_assertion": lambda: pickle.dumps((Rebuild(sp.Symbol, ("x", "y", "z")), d)),                 # TypeError
+            "raise_lookup": lambda: pickle.dumps(Rebuild(operator.getitem, ([], 3))),                          # IndexError
+        }
+        return bad[kind]()
     raise ValueError(kind)
 
 
@@ -512,7 +601,7 @@ def execute(w: World, hist, root):
             base = len(outcomes)
             acts = ["Spawn %d" % w.cid[pi] for pi in op["es"]]
             ph = {"read": "AtRead", "dump": "AtDump", "replace": "AtReplace", "end": "AtEnd"}
-            acts += ["RunTo %d %s" % (base + c, ph[p]) for c, p in op["sched"]]
+            acts += ["RunTo %d %s" % (base + c, ph[p]) for c, p in op["sched"] if p != "mkdir"]
             acts += ["RunTo %d AtEnd" % (base + c) for c in range(len(op["es"]))]
             docs = conc_calls(w, root, op["es"], op["sched"])
             for pi, doc in zip(op["es"], docs):
@@ -536,8 +625,8 @@ def gen_histories(w: World, seed, tier, budget, sizes):
     thorough = tier == "thorough"
     H = []
 
-    def add(family, ops):
-        H.append({"family": family, "ops": ops})
+    def add(family, ops, cold=False):
+        H.append({"family": family, "ops": ops, "cold": cold})
 
     def call(n):
         return {"op": "call", "e": P[n]}
@@ -581,6 +670,14 @@ def gen_histories(w: World, seed, tier, budget, sizes):
             add("preexisting", [op, call(a), call(a), call(b), call(a)])
             if thorough or kind in ("legacy_other", "valid_other", "dir"):
                 add("preexisting", [call(b), op, call(b), call(a), {"op": "delete", "e": P[a]}, call(a), call(b)])
+    # F3b well-formed pickles that cannot be rebuilt (every exception class must count as garbage)
+    rpairs = pairs if thorough else [pairs[0], pairs[3], pairs[8]]
+    for a, b in rpairs:
+        for kind in RAISING_KINDS:
+            op = {"op": "put", "e": P[a], "kind": kind, "src": P[b]}
+            add("unloadable", [op, call(a), call(a), call(b)])
+            if thorough:
+                add("unloadable", [call(a), op, call(a), call(b), call(a)])
     # F4 crash inside the write / at the rename, then fresh calls
     for a, b in [("edw_std", "edw_sw"), ("cs_xpos", "cs_x"), ("sum_edw", "sum_edw_std")]:
         size = sizes[a]
@@ -630,6 +727,27 @@ def gen_histories(w: World, seed, tier, budget, sizes):
             pos[c] = min(pos[c], 4)
             sc.append([c, PHASES[pos[c] - 1]])
         add("concurrent3", [{"op": "conc", "es": [P[n] for n in es], "sched": sc}] + [call(n) for n in es])
+    # F7 cold start: the (nested) cache directory does not exist yet; all children are held at their
+    # first os.mkdir (i.e. after whatever existence check the code makes), then released
+    cold_sets = [["edw_std", "edw_sw"], ["edw_std", "edw_std_again", "edw_cx"], ["cs_xpos", "cs_xneg", "cs_x", "bms"]]
+    for es in cold_sets:
+        k = len(es)
+        add("coldstart", [{"op": "conc", "es": [P[n] for n in es], "sched": [[c, "mkdir"] for c in range(k)]}]
+            + [call(n) for n in es], cold=True)
+        add("coldstart", [{"op": "conc", "es": [P[n] for n in es],
+                           "sched": [[c, "mkdir"] for c in range(k)] + [[c, "dump"] for c in reversed(range(k))]},
+                          call(es[0])], cold=True)
+        add("coldstart", [call(es[0]), call(es[1]), call(es[0])], cold=True)
+        add("coldstart", [{"op": "crash_call", "e": P[es[0]], "n": 3, "how": "exit"}, call(es[0]), call(es[1])], cold=True)
+    for _ in range(60 if thorough else 4):
+        k = rng.choice([2, 3, 4, 5])
+        es = [rng.choice(names) for _ in range(k)]
+        order = list(range(k))
+        rng.shuffle(order)
+        sc = [[c, "mkdir"] for c in order]
+        for c in rng.sample(range(k), k):
+            sc.append([c, rng.choice(PHASES)])
+        add("coldstart", [{"op": "conc", "es": [P[n] for n in es], "sched": sc}, call(es[0])], cold=True)
     # F6 random mixed histories
     nrand = {"quick": 40, "thorough": 400}[tier] * (5 if budget == "deep" else 1)
     for _ in range(nrand):
@@ -644,7 +762,7 @@ def gen_histories(w: World, seed, tier, budget, sizes):
             elif r < 0.6:
                 ops.append({"op": "trunc", "e": P[a], "n": rng.randrange(0, sizes[a] + 1)})
             elif r < 0.72:
-                kinds = [k for k in PUT_KINDS if k != "dir"]
+                kinds = [k for k in PUT_KINDS if k != "dir"] + RAISING_KINDS
                 ops.append({"op": "put", "e": P[a], "kind": rng.choice(kinds), "src": P[rng.choice(group)]})
             elif r < 0.78:
                 ops.append({"op": "delete", "e": P[a]})
@@ -736,17 +854,19 @@ def cmd_run(seed, tier, mode, budget):
         sizes = measure_sizes(w, base)
         hists = gen_histories(w, seed, tier, budget, sizes)
         for hi, h in enumerate(hists):
-            root = tempfile.mkdtemp(prefix="h%d_" % hi, dir=base)
+            top = tempfile.mkdtemp(prefix="h%d_" % hi, dir=base)
+            root = os.path.join(top, "not", "yet", "there") if h.get("cold") else top
             obs, mops, oracle = execute(w, h, root)
-            shutil.rmtree(root, ignore_errors=True)
-            records.append({"family": h["family"], "ops": h["ops"], "obs": obs, "mops": mops})
+            shutil.rmtree(top, ignore_errors=True)
+            records.append({"family": h["family"], "ops": h["ops"], "cold": bool(h.get("cold")), "obs": obs, "mops": mops})
             for o in oracle:
                 if not o["ok"]:
                     failures.append({
                         "signature": "prop:%s:%s" % (h["family"], o["what"].split(" ")[0]),
                         "what": "%s: call on %s at op %d %s [hash mode %s]" % (h["family"], o["e"], o["op"], o["what"], mode),
                         "case": {"kind": "history", "mode": mode, "hashseed": os.environ.get("PYTHONHASHSEED"),
-                                 "family": h["family"], "ops": h["ops"], "expected": None}})
+                                 "family": h["family"], "ops": h["ops"], "cold": bool(h.get("cold")),
+                                 "expected": None}})
                     break
         # free-running processes
         P = {n: i for i, n in enumerate(w.names)}
@@ -769,6 +889,17 @@ def cmd_run(seed, tier, mode, budget):
                                  "case": {"kind": "hammer", "mode": mode, "hashseed": os.environ.get("PYTHONHASHSEED"),
                                           "nproc": nproc, "ncalls": ncalls, "chaos": chaos, "seed": seed * 10 + ri,
                                           "group": group}})
+        # cold-start races without any barrier inside the call (real scheduling)
+        cr_rounds = 12 if tier == "quick" else 200
+        ncold, cbad = coldrace(w, base, 8, cr_rounds, seed + 17, group)
+        ncalls_h += ncold
+        ham.append({"coldrace_rounds": cr_rounds, "nproc": 8, "bad": len(cbad)})
+        if cbad:
+            failures.append({"signature": "prop:coldrace:" + cbad[0]["what"].split(" ")[0],
+                             "what": "cold start, 8 processes on a directory that does not exist yet: %s (%d bad calls) [hash mode %s]"
+                             % (cbad[0], len(cbad), mode),
+                             "case": {"kind": "coldrace", "mode": mode, "hashseed": os.environ.get("PYTHONHASHSEED"),
+                                      "nproc": 8, "rounds": max(cr_rounds, 200), "seed": seed + 17, "group": group}})
     finally:
         shutil.rmtree(base, ignore_errors=True)
     files = write_cases(w, mode, records)
@@ -815,7 +946,7 @@ def cmd_diff(mode):
         f["variants_differ"] += differ
         f["matches_robust"] += d_r is None
         f["matches_pinned"] += d_p is None
-        key = json.dumps(r["ops"], sort_keys=True)
+        key = json.dumps([r["ops"], r.get("cold")], sort_keys=True)
         if differ:
             distinct.add(key)
         if r["family"] not in samples and differ:
@@ -833,7 +964,8 @@ def cmd_diff(mode):
                         % (r["family"], d_r[0], d_r[1], " (matches the Pinned model)" if pinned_like else "", mode))
             failures.append({"signature": sig, "what": what,
                              "case": {"kind": "history", "mode": mode, "hashseed": doc["hashseed"],
-                                      "family": r["family"], "ops": r["ops"], "expected": norm(rob), "legend": LEGEND}})
+                                      "family": r["family"], "ops": r["ops"], "cold": bool(r.get("cold")),
+                                      "expected": norm(rob), "legend": LEGEND}})
     print(json.dumps({"histories": len(recs), "matches_robust": n_robust, "matches_pinned": n_pinned,
                       "variants_differ": n_differ, "distinct_nontrivial": len(distinct), "families": fam,
                       "samples": list(samples.values())[:6], "failures": failures[:20]}))
@@ -845,6 +977,9 @@ def replay_case(case):
     try:
         if case["kind"] == "pool":
             return bool(w.problems), [p[1] for p in w.problems]
+        if case["kind"] == "coldrace":
+            n, bad = coldrace(w, base, case["nproc"], case["rounds"], case["seed"], case["group"])
+            return bool(bad), bad[:2]
         if case["kind"] == "hammer":
             for rep in range(5):
                 root = tempfile.mkdtemp(prefix="ham_", dir=base)
@@ -853,6 +988,8 @@ def replay_case(case):
                     return True, [b for o in out for b in o["bad"]][:2]
             return False, []
         root = tempfile.mkdtemp(prefix="h_", dir=base)
+        if case.get("cold"):
+            root = os.path.join(root, "not", "yet", "there")
         obs, mops, oracle = execute(w, case, root)
         bad = [o["what"] for o in oracle if not o["ok"]]
         if case.get("expected") is not None:
